@@ -325,4 +325,5 @@ def u_set_render_method(ctx):
     return obs
 from .render_kitty import *    # noqa: F401,F403,E402  (the method a render actually uses: per-call override, any letter case)
 from .render_iterm2 import *   # noqa: F401,F403,E402
+from . import image_iterator as _image_iterator  # noqa: F401,E402  (frames of an iteration are rendered with the style arguments given for it)
 from .old_draw import iterm2_display_unit  # noqa: F401,E402  (a per-call method override given to an animated draw() reaches the frames)
